@@ -13,6 +13,7 @@ import (
 	"context"
 	"encoding/json"
 	"fmt"
+	"math/rand"
 	"os"
 	"path"
 	"runtime"
@@ -231,11 +232,35 @@ func newVcOracle() *vcOracle {
 	return o
 }
 
+func (o *vcOracle) clone() *vcOracle {
+	n := newVcOracle()
+	for _, ch := range []string{"I", "D", "V"} {
+		for k := range o.must[ch] {
+			n.must[ch][k] = true
+		}
+		for k := range o.may[ch] {
+			n.may[ch][k] = true
+		}
+		for k := range o.written[ch] {
+			n.written[ch][k] = true
+		}
+	}
+	for _, s := range o.sessions {
+		cp := &vcSession{chans: s.chans, auto: s.auto, deleted: s.deleted, pending: append([]vcSample(nil), s.pending...)}
+		for _, cm := range s.commits {
+			cp.commits = append(cp.commits, append([]vcSample(nil), cm...))
+		}
+		n.sessions = append(n.sessions, cp)
+	}
+	return n
+}
+
 type vcCrashStats struct {
 	images, torn, opens, histories, skippedTainted atomic.Int64
 }
 
 type vcFinding struct {
+	Tags  []string `json:"tags"`
 	Kind  string `json:"kind"`
 	Op    int    `json:"op"`
 	OpStr string `json:"opstr"`
@@ -263,6 +288,96 @@ func (r *vsRunner) dbOpts() []Option {
 		opts = append(opts, WithGCConfig(GCConfig{TryInterval: time.Hour}))
 	}
 	return opts
+}
+
+// vcTags names the structural crash windows an image is in (decoded from the image
+// itself, independent of which mutation happened to be the last one):
+//   create-window   a channel directory without meta.json
+//   torn-index      the last mutation is a torn write of an index.domain
+//   truncate-window the last mutation is a Truncate of an index.domain (WriteAt pending)
+//   gc-swap         a _gc / _temp data file exists, or a persisted pointer addresses bytes
+//                   beyond its data file / a missing data file (offsets not yet persisted)
+//   data-ahead      a data channel's persisted index holds a domain that the persisted
+//                   index of its index channel does not cover (multi-channel commit window)
+func vcTags(img vcImage) []string {
+	tags := map[string]bool{}
+	dirs := map[string]bool{}
+	for d := range img.Dirs {
+		dirs[d] = true
+	}
+	for d := range dirs {
+		if _, err := strconv.Atoi(d); err == nil {
+			if _, ok := img.Files[d+"/meta.json"]; !ok {
+				tags["create-window"] = true
+			}
+		}
+	}
+	if strings.HasPrefix(img.What, "writeat") && strings.Contains(img.What, "index.domain") && strings.Contains(img.What, "[torn") {
+		tags["torn-index"] = true
+	}
+	if strings.HasPrefix(img.What, "truncate") && strings.Contains(img.What, "index.domain") {
+		tags["truncate-window"] = true
+	}
+	type ptr struct {
+		lo, hi   telem.TimeStamp
+		file     uint16
+		off, siz uint32
+	}
+	ptrs := map[string][]ptr{}
+	for p, b := range img.Files {
+		if strings.HasSuffix(p, "_gc") || strings.HasSuffix(p, "_temp") {
+			tags["gc-swap"] = true
+		}
+		if strings.HasSuffix(p, "/index.domain") {
+			ch := strings.SplitN(p, "/", 2)[0]
+			for i := 0; i+26 <= len(b); i += 26 {
+				ptrs[ch] = append(ptrs[ch], ptr{telem.TimeStamp(telem.ByteOrder.Uint64(b[i : i+8])), telem.TimeStamp(telem.ByteOrder.Uint64(b[i+8 : i+16])),
+					telem.ByteOrder.Uint16(b[i+16 : i+18]), telem.ByteOrder.Uint32(b[i+18 : i+22]), telem.ByteOrder.Uint32(b[i+22 : i+26])})
+			}
+		}
+	}
+	for ch, ps := range ptrs {
+		for _, p := range ps {
+			f, ok := img.Files[fmt.Sprintf("%s/%d.domain", ch, p.file)]
+			if !ok || int(p.off)+int(p.siz) > len(f) {
+				tags["gc-swap"] = true
+			}
+		}
+	}
+	idx := ptrs[strconv.Itoa(int(vsKeyI))]
+	for _, ch := range []ChannelKey{vsKeyD, vsKeyV} {
+		for _, p := range ptrs[strconv.Itoa(int(ch))] {
+			covered := false
+			for _, q := range idx {
+				if q.lo <= p.lo && p.hi <= q.hi {
+					covered = true
+				}
+			}
+			// adjacent index domains (rollover) cover jointly
+			if !covered {
+				lo := p.lo
+				for progress := true; progress; {
+					progress = false
+					for _, q := range idx {
+						if q.lo <= lo && lo < q.hi {
+							lo = q.hi
+							progress = true
+						}
+					}
+				}
+				covered = lo >= p.hi
+			}
+			if !covered {
+				tags["data-ahead"] = true
+			}
+		}
+	}
+	var out []string
+	for t := range tags {
+		out = append(out, t)
+	}
+	sort.Strings(out)
+	return out
 }
 
 // vcCheckImage opens the image and judges what it reads back.
@@ -561,9 +676,17 @@ func vcReplay(idx int, hist []vsStep, c vsConc, maxT int, stats *vcCrashStats, m
 	checked := 0
 	// check every image produced since `from`, under the oracle of the step in progress
 	seenKinds := map[string]bool{}
-	check := func(from int, opIdx int, st *vsStep, delRange map[string][2]int) *vcFinding {
+	type deferred struct {
+		from, to, opIdx int
+		st              *vsStep
+		delRange        map[string][2]int
+		o               *vcOracle
+	}
+	var later []deferred
+	check := func(d deferred) *vcFinding {
+		from, opIdx, st, delRange, o := d.from, d.opIdx, d.st, d.delRange, d.o
 		rec.mu.Lock()
-		imgs := append([]vcImage(nil), rec.images[from:]...)
+		imgs := append([]vcImage(nil), rec.images[from:d.to]...)
 		var prev vcImage
 		if from > 0 {
 			prev = rec.images[from-1]
@@ -583,6 +706,7 @@ func vcReplay(idx int, hist []vsStep, c vsConc, maxT int, stats *vcCrashStats, m
 				if f := r.vcCheckImage(cand, o, st, delRange); f != nil {
 					f.Op = opIdx
 					f.Image = cand.What
+					f.Tags = vcTags(cand)
 					if st != nil {
 						f.OpStr = st.A + " " + string(st.Args)
 					} else {
@@ -610,7 +734,7 @@ func vcReplay(idx int, hist []vsStep, c vsConc, maxT int, stats *vcCrashStats, m
 							fmt.Println()
 						}
 					}
-					k := f.Kind + "|" + strings.SplitN(cand.What, " ", 2)[0] + "|" + strings.SplitN(f.OpStr, " ", 2)[0]
+					k := f.Kind + "|" + strings.Join(f.Tags, ",") + "|" + strings.SplitN(cand.What, " ", 2)[0] + "|" + strings.SplitN(f.OpStr, " ", 2)[0]
 					if !seenKinds[k] && len(res.Fs) < 12 {
 						seenKinds[k] = true
 						res.Fs = append(res.Fs, *f)
@@ -641,16 +765,17 @@ func vcReplay(idx int, hist []vsStep, c vsConc, maxT int, stats *vcCrashStats, m
 		res.R = "inconclusive"
 		return
 	}
-	if f := check(from, -1, nil, nil); f != nil {
-		res.R = "mismatch"
-		res.F = f
-		return
-	}
+	later = append(later, deferred{from: from, to: len(rec.images), opIdx: -1, o: o.clone()})
 	defer func() {
 		if res.R == "ok" && len(res.Fs) > 0 {
 			res.R = "mismatch"
 		}
 	}()
+	// The script runs first, without checking anything in between, so that its steps
+	// are microseconds apart and the interval-persistence mode below controls which
+	// auto-commits persist the index; all crash images are judged afterwards, each under
+	// a copy of the oracle as it was when its step was in progress.
+	rnd := rand.New(rand.NewSource(int64(idx)*7919 + 17))
 	for i := range hist {
 		st := hist[i]
 		if i > 0 {
@@ -658,6 +783,9 @@ func vcReplay(idx int, hist []vsStep, c vsConc, maxT int, stats *vcCrashStats, m
 		}
 		from = len(rec.images)
 		delRange := o.before(st)
+		if c.Persist == 2 && st.A == "write" && rnd.Intn(2) == 0 {
+			time.Sleep(1200 * time.Microsecond) // lets the 1 ms persist interval elapse
+		}
 		var out string
 		if st.A == "reopen" {
 			// reopen on the recording fs
@@ -688,12 +816,12 @@ func vcReplay(idx int, hist []vsStep, c vsConc, maxT int, stats *vcCrashStats, m
 			res.F = &vcFinding{Kind: "outcome", Op: i, OpStr: st.A + " " + string(st.Args), Exp: st.Res, Act: out}
 			return
 		}
-		if f := check(from, i, &st, delRange); f != nil {
-			res.R = "mismatch"
-			res.F = f
-			return
-		}
+		stc := st
+		later = append(later, deferred{from: from, to: len(rec.images), opIdx: i, st: &stc, delRange: delRange, o: o.clone()})
 		o.advance(st, c)
+	}
+	for _, d := range later {
+		_ = check(d)
 	}
 	return
 }
